@@ -316,6 +316,66 @@ def check_width(prog: Program, res: Result) -> None:
     res.floor(R, 3)
 
 
+def check_closed_form(prog: Program, res: Result) -> None:
+    """Encoder, decoder, middle block and Model all assume the width of level d is the CLOSED FORM int(filters * rate**d).
+    Inside the block-building loops the width handed to a block (`filters=`) is therefore a function of the loop index
+    and the constructor arguments only: a width computed from the previous iteration's width (int(prev * rate))
+    truncates once per level, and for a fractional rate drifts away from what the other components compute."""
+    R = "C14-width"
+    n = 0
+    for q in ("sleap_nn.architectures.encoder_decoder:Encoder", "sleap_nn.architectures.encoder_decoder:Decoder"):
+        fi = prog.cls(q).methods["__init__"]
+        res.touch(fi)
+        for lp in walk_function(fi.node):
+            if not isinstance(lp, ast.For):
+                continue
+            bound = {t for st in ast.walk(lp) if isinstance(st, (ast.Assign, ast.AugAssign, ast.AnnAssign)) for tg in astq.stmt_targets(st) for t in astq.target_names(tg)}
+            lv = astq.target_names(lp.target)
+            for c in ast.walk(lp):
+                if not isinstance(c, ast.Call):
+                    continue
+                for k in c.keywords:
+                    if k.arg not in ("filters", "refine_convs_filters", "transpose_convs_filters"):
+                        continue
+                    kv = k.value
+                    v = astq.expand_phi(fi.node, astq.expand_at(fi.node, kv, astq_stmt(c), keep=sorted(lv)), keep=sorted(lv))
+                    v = astq.expand_at(fi.node, v, astq_stmt(c), keep=sorted(lv))
+                    from ..core.program import set_parents
+                    set_parents(v)
+                    # a width copied from the previous level is still that level's closed form; ARITHMETIC on a carried width is not
+                    carried = sorted({x.id for x in ast.walk(v) if isinstance(x, ast.Name) and x.id in bound and x.id not in lv
+                                      and any(isinstance(a_, ast.BinOp) for a_ in ancestors(x))})
+                    n += 1
+                    res.ob(R, not carried, fi.qualname, f"{norm(c.func)}({k.arg}={short(kv, 25)}) is a closed form of the block index",
+                           f"the width `{short(v, 70)}` of `{norm(c.func)}` reads {carried}, which the loop itself re-binds: the width of a level is computed from the previous "
+                           "level's (truncated) width instead of int(filters * rate**level), and drifts from what the decoder / middle block / Model assume",
+                           f"{fi.module.relpath}:{c.lineno}")
+    res.ob(R, n >= 4, "sleap_nn.architectures.encoder_decoder", "block widths found", f"only {n} block constructions with a filters= argument found in the encoder/decoder loops", "")
+
+
+def check_unet_stride(prog: Program, res: Result) -> None:
+    """The stride UNet hands its decoder is the total pooling of the encoder it just built - stem blocks included.  The
+    decoder labels its outputs from it (current_strides) and Model picks each head's feature map by that label, so the
+    value has to vary with the stem: it is computed from the encoder's own stack (pooling strides) or from an expression
+    that mentions the stem blocks."""
+    R = "C14-chain"
+    fi = prog.cls("sleap_nn.architectures.unet:UNet").methods["__init__"]
+    res.touch(fi)
+    decs = [c for c in walk_function(fi.node) if isinstance(c, ast.Call) and prog.resolve_call(fi, c) == "sleap_nn.architectures.encoder_decoder:Decoder"]
+    res.ob(R, len(decs) == 1, fi.qualname, "one Decoder", f"{len(decs)} Decoder constructions", fi.where)
+    for c in decs:
+        cs = next((k.value for k in c.keywords if k.arg == "current_stride"), None)
+        e = astq.expand_at(fi.node, cs, astq_stmt(c)) if cs is not None else None
+        if isinstance(e, ast.Attribute) and norm(e.value) == "self":   # self.current_stride = <expr>
+            sts = [s_ for s_ in walk_function(fi.node) if isinstance(s_, ast.Assign) and norm(s_.targets[0]) == norm(e)]
+            e = astq.expand_at(fi.node, sts[0].value, sts[0]) if len(sts) == 1 else e
+        txt = norm(e) if e is not None else ""
+        ok = "self.enc" in txt or "stem_blocks" in txt or "stem_stride" in txt
+        res.ob(R, ok, fi.qualname, "decoder start stride = total pooling of the encoder (stem included)",
+               f"Decoder(current_stride=`{short(e, 70) if e is not None else '?'}`) does not depend on the encoder stack or the stem blocks: with a stem the decoder's stride labels "
+               "are too small by the stem stride and Model selects the wrong feature map for each head", f"{fi.module.relpath}:{c.lineno}")
+
+
 def _perm_of(fi_cls, e: ast.AST, var: str):
     """Permutation (list) that expression `e` applies to the 4-D tensor `var`, through .permute / Permute modules /
     .transpose / .contiguous; None if something else happens to it."""
@@ -489,6 +549,8 @@ def check(prog: Program, res: Result) -> None:
     check_sel(prog, res)
     check_chan(prog, res)
     check_width(prog, res)
+    check_closed_form(prog, res)
+    check_unet_stride(prog, res)
     check_layout(prog, res)
     check_chain(prog, res)
     res.assumptions.append("spatial shape arithmetic over the configuration grid (Conv2d/Upsample/PatchMerging size rules) is not decided")
